@@ -70,12 +70,19 @@ func parseUUID(buf []byte) (uuid meta.UUID) {
 
 // parseInt parses a []byte of a string representation of an int64 value and returns the value
 func parseInt(buf []byte) (i int64) {
-	if buf[0] == '-' {
-		buf = buf[1:]
-		i = -1
+	if len(buf) > 0 && buf[0] == '-' {
+		return -int64(parseUint(buf[1:]))
 	}
-	i *= int64(parseUint(buf))
-	return
+	return int64(parseUint(buf))
+}
+
+// parseInt8 parses a []byte of a string representation of an int8 value and returns the value.
+// If the value does not fit an int8 returns 0.
+func parseInt8(buf []byte) int8 {
+	if i := parseInt(buf); i >= math.MinInt8 && i <= math.MaxInt8 {
+		return int8(i)
+	}
+	return 0
 }
 
 // parseUint parses a []byte of a string representation of a uint64 value and returns the value.
